@@ -52,23 +52,26 @@ theorem termIdx_row (name : String) (i : Nat) (s : String) (hi : Grammar.termIdx
 /-- the type of a rule match is a rule name, "ID" or a keyword type -/
 theorem ruleInfo_type_mem {text : List Char} {t : Token} (h : RuleInfo text t) :
     t.type ∈ allRules ∨ t.type ∈ "ID" :: kwTypes := by
-  obtain ⟨_, s, r, ⟨pre, post, _, hr, _⟩, ht⟩ := h
+  obtain ⟨_, s, r, ap, ⟨pre, post, _, hr, _⟩, ht⟩ := h
   have hmem : r ∈ allRules := by unfold allRules; cases s <;> simp [hr]
   rw [ht]
-  unfold ruleType
-  split
-  · split
-    · rename_i kw hkw
-      right
-      exact List.mem_cons_of_mem _ (lookup_mem _ _ _ hkw)
-    · right; simp
-  · left; exact hmem
+  rcases ruleFn_cases ap r t.value with h1 | ⟨_, h2⟩
+  · rw [h1]
+    unfold ruleType
+    split
+    · split
+      · rename_i kw hkw
+        right
+        exact List.mem_cons_of_mem _ (lookup_mem _ _ _ hkw)
+      · right; simp
+    · left; exact hmem
+  · rw [h2]; right; simp
 
 theorem prop_value {text : List Char} {t : Token} (h : RuleInfo text t) (N : String) (kw : List Char)
     (hN : N ≠ "ID") (hk : N ∉ kwTypes) (hty : t.type = N) (hm : ruleMatcher N = some (propLen kw)) :
     t.value = kw := by
-  obtain ⟨hval, s, r, ⟨_, _, m, _, hm', hn, _⟩, ht⟩ := h
-  have hr : r = N := ruleType_eq r _ N hN hk (ht ▸ hty)
+  obtain ⟨hval, s, r, ap, ⟨_, _, m, _, hm', hn, _⟩, ht⟩ := h
+  have hr : r = N := ruleFn_eq ap r _ N hN hk (ht ▸ hty)
   subst hr
   rw [hm] at hm'
   simp at hm'
@@ -114,9 +117,7 @@ theorem spelling_ok {text : List Char} {idx : List Nat} {t : Token} (hg : Good t
     rcases hrow with ((((h | h) | h) | h) | h) | h
     · exact absurd h hne
     · rw [(punct_munch hri _ _ h rfl).1, String.ofList_toList]
-    · have hmem : t.type ∈ "ID" :: kwTypes :=
-        List.mem_cons_of_mem _ (List.mem_map_of_mem (f := (·.2)) h)
-      exact (id_keyword_iff_aux hri hmem s t.type h).mp rfl
+    · exact keyword_type_exact hri s t.type h rfl
     · exfalso
       rcases ruleInfo_type_mem hri with h' | h'
       · rw [h.1] at h'; exact hnr h'
